@@ -450,3 +450,77 @@ def lp_cases(thorough):
     if thorough:
         out += [dict(history=["b", "a", "a", "b"], opt="to_animals", store=True), dict(history=["a", "b", "a"], opt="to_animals", store=True)]
     return out
+
+
+# =====================================================================================================================================
+# Fresh processes: the order in which the herds are created and served must not depend on the interpreter's string-hash seed.
+# (concrete comparison of real runs in separate interpreters -- nothing symbolic here; kept with the histories because it is the "alone in a fresh
+# process" clause of C14 and no in-process execution can see it)
+# =====================================================================================================================================
+_ORDER_SNIPPET = r'''
+import sys, io, contextlib, json
+sys.path.insert(0, %r)
+import numpy as np
+import src.food_system.animal_populations as ap
+from src.food_system.food import Food
+out = {}
+for c in %r:
+    with contextlib.redirect_stdout(io.StringIO()):
+        animals, fu, gu = ap.main(c, Food(np.zeros(2)), Food(np.zeros(2) + 1e3), %r, constants_inputs=None, remove_first_month=0,
+                                  kcals_per_head_meat_dict=dict(KCALS_PER_CHICKEN=1.5e-6, KCALS_PER_PIG=1.1e-4, KCALS_PER_SMALL_ANIMAL=2.0e-6, KCALS_PER_MEDIUM_ANIMAL=6.0e-5, KCALS_PER_LARGE_ANIMAL=6.5e-4))
+    out[c] = [[a.animal_type, float(a.population[-1]), float(a.slaughter[-1])] for a in animals]
+print("ORDER " + json.dumps(out))
+'''
+
+
+def worker_hash_seed(case, seed):
+    import os
+    import subprocess
+    import sys
+    runs = {}
+    errors = []
+    for hs in case["seeds"]:
+        env = dict(os.environ, PYTHONHASHSEED=str(hs), MPLBACKEND="Agg")
+        p = subprocess.run([sys.executable, "-c", _ORDER_SNIPPET % (vlib.REPO, case["countries"], case["strategy"])], cwd=vlib.REPO, env=env, stdout=subprocess.PIPE, stderr=subprocess.STDOUT, text=True, timeout=600)
+        line = [l for l in p.stdout.splitlines() if l.startswith("ORDER ")]
+        if not line:
+            errors.append("hash seed %s: no result: %s" % (hs, p.stdout[-300:]))
+            continue
+        runs[hs] = json.loads(line[0][6:])
+    name = "herds are created, served and slaughtered in the same order whatever the interpreter's string-hash seed"
+    ob = {name: dict(unsat=0, sat=0, unknown=0)}
+    cex = []
+    base = runs.get(case["seeds"][0])
+    for hs, r in runs.items():
+        for c in case["countries"]:
+            if base is None or hs == case["seeds"][0]:
+                continue
+            if r[c] == base[c]:
+                ob[name]["unsat"] += 1
+            else:
+                ob[name]["sat"] += 1
+                first = next((i for i, (x, y) in enumerate(zip(r[c], base[c])) if x != y), 0)
+                cex.append(dict(obligation=name, model={}, info="%s: hash seed %s gives %s at position %d, hash seed %s gives %s" % (c, case["seeds"][0], base[c][first], first, hs, r[c][first])))
+    st = dict(paths=len(runs), completed=len(runs), pruned_by_code_assertions=0, pruned_other=0, queries=0, solver_s=0.0, branches=0, unsat=ob[name]["unsat"], sat=ob[name]["sat"], unknown=0, forks=0)
+    return dict(stats=st, obligations=ob, cex=cex[:2], errors=errors, n_errors=len(errors), canary_bad=0)
+
+
+def replay_hash_seed(case, cx):
+    # the observation IS a pair of real runs
+    return dict(reproduced=True, what=cx["info"], inputs=dict(case=case if isinstance(case, dict) else json.loads(case)), key="fresh process/result depends on the string-hash seed")
+
+
+GROUP_HASH = dict(name="fresh_processes_with_different_hash_seeds", fn="harness.history:worker_hash_seed", replay=replay_hash_seed,
+                  functions=["animal_populations.main (herd construction, priority order, one month)"],
+                  bounds="3 interpreter processes (string-hash seeds 0, 1, 2) x 6 countries (thorough 16), reduced-breeding strategy, 2 months",
+                  symbolic="nothing: a concrete comparison of real runs in separate interpreters (the 'alone in a fresh process' clause cannot be seen from inside one process)",
+                  assumptions=[], stubs=[], outside=["hash seeds other than the three tried", "the optimiser rounds"])
+
+
+def hash_cases(thorough, seed):
+    import random
+    import pandas as pd
+    codes = list(pd.read_csv(vlib.REPO + POP_CSV)["iso3"])
+    rng = random.Random(seed + 5)
+    pick = ["BOL", "IND", "CHN", "USA"] + rng.sample(codes, 12 if thorough else 2)
+    return [dict(countries=pick, strategy="reduced", seeds=[0, 1, 2])]
